@@ -76,6 +76,15 @@ impl Mode {
             None => return Ok(None),
         };
 
+        // no packet is shorter than its own header: a smaller size can only come from a broken
+        // or hostile peer, and must not be split off as a "frame"
+        if n < self.valid_raw_buffer_min_len() {
+            return Err(io::Error::new(
+                io::ErrorKind::InvalidData,
+                "frame is shorter than the minimum packet size",
+            ));
+        }
+
         // does this exceed the max possible packet?
         if n > self.max_length() {
             return Err(io::Error::new(
